@@ -183,3 +183,36 @@ _CAP_RULE = ("capture suite: well-formed single-threaded programs (as C01) drive
              ">= 1 captured event in the first layer; distinct by input text")
 for _p in ["C05", "C16", "C17"]:
     PROPS[_p] = dict(suites=[("capture", {Q: 600, T: 40000})], rule=_CAP_RULE)
+
+PROPS["C04"]["extra_modules"] = ["TT.Props.C04Retry"]
+
+MANIFEST_TEXT["C03"] = dict(
+    text="Theorems: every event of a well-formed execution is accepted across any history of cuts with kept / lost map, new host or "
+         "discard, including `entered c` for a span whose explicit parent was dropped before the restart (C03_accepts); a host span is "
+         "created exactly when the guest span has none in the local map, exactly one, and the map then points to it; the entry is stable "
+         "until the last drop (so: presented at most once per epoch, no later than the first enter); on a lazily re-created span the host "
+         "sees new_span (call site, first 32 applicable stored values, explicit parent only if mapped) + record chunks + enter, in this "
+         "order; stored values are the latest per field and the call site is the announced one (bookkeeping); explicit event parents are "
+         "mapped through the local map and contextual events leave the stack untouched; the final persisted state is independent of the "
+         "restart modes. Model of the repaired code (fixes 87e4544, b018624).",
+    note=_RECV_NOTE, technique="Lean 4 proof (step lemmas + bookkeeping simulation) + differential correspondence + restart-at-every-cut oracles")
+PROPS["C03"]["rule"] = PROPS["C03"]["rule"]
+
+_PROG_RULE = ("prog suite: well-formed single-threaded guest programs at subscriber-call level (1..6 call sites with 0..=32 fields, every "
+              "level, both kinds; contextual / explicit / explicit-root parents; values of every primitive kind; nested, re-entrant and "
+              "non-LIFO enters; clones, drops, follows-from, records, events, repeated registrations), exhaustive programs over an "
+              "11-symbol alphabet up to length 4 (quick) / 6 (thorough) and random programs up to 40 / 200 ops; each is run natively on a "
+              "StrictHost, under the real TracingEventSender, and tunnelled (sender -> serde_json -> receiver -> StrictHost); "
+              "non-trivial = >= 2 spans, >= 1 enter, >= 1 event or record and one of {explicit parent, clone, follows-from}; distinct by input text")
+PROPS["C12"] = dict(suites=[("prog", {Q: 400, T: 30000})], rule=_PROG_RULE + "; plus 2..16 threads x 5..200 span creations through one shared sender, and the span-id counter preset near 2^32 through the cfg hook")
+MANIFEST_TEXT["C12"] = dict(
+    text="Theorems (all programs, no bound on length): the sender's stream equals the program's own operation log mapped call by call to "
+         "events with the operation's span ids, explicit parent and captured values (C12_one_event_per_call); every call site used was "
+         "announced earlier with the content of its metadata; span ids are 1,2,3,... (non-zero, never reused); the stream of a well-formed "
+         "program is a valid stream (all references between creation and last drop, <= 32 values, no id announced while alive) "
+         "(C12_stream_valid); under every schedule of atomic fetch_add steps the ids handed to any number of threads are pairwise distinct "
+         "(C12_conc_distinct). All under the explicit bound of fewer than 2^32-1 span creations; C12_wrap_counterexample shows the bound is "
+         "necessary (known finding K2). The concurrency clause is a proof over an interleaving model of atomic steps, tied to the code by "
+         "free-running threads; real memory-model behaviour is assumed.",
+    note=_BASE_NOTE + "Environment modelled, not verified: the `tracing` front end (one subscriber call per span operation, registration before first use, enabled before new_span/event, child_of(None)=new_root) and AtomicU32::fetch_add as one atomic step.",
+    technique="Lean 4 proof (lock-step simulation of subscribers, invariants over programs, interleaving model) + differential correspondence")
